@@ -324,6 +324,9 @@ fn run_history(rep: &mut Report, seed: u64, len: usize) -> (Vec<String>, Vec<Str
     // whether the index is still "clean" (every block filtered exactly once, in order)
     let mut clean = true;
     let mut all_txs: Vec<TxSpec> = Vec::new();
+    // a transaction of the NEXT block whose fetch result is stored before the block is filtered
+    // (fetch_transaction for a transaction under the proved tip the filter sync has not reached)
+    let mut pending: Option<TxSpec> = None;
     for _ in 0..len {
         rep.evaluations += 1;
         match rng.below(12) {
@@ -331,7 +334,19 @@ fn run_history(rep: &mut Report, seed: u64, len: usize) -> (Vec<String>, Vec<Str
                 // next block
                 let n_tx = rng.range(1, 4) as usize;
                 let mut txs = Vec::new();
-                for _ in 0..n_tx {
+                let pending_at = if pending.is_some() { rng.below(n_tx as u64 + 1) as usize } else { usize::MAX };
+                for k in 0..=n_tx {
+                    if k == pending_at {
+                        let t = pending.take().unwrap();
+                        for i in 0..t.outputs.len() {
+                            spendable.push((t.view.hash(), i as u32)); // later transactions of the block may spend it
+                        }
+                        txs.push(t);
+                        rep.count_class("c03:fetched-before-filtered");
+                    }
+                    if k == n_tx {
+                        break;
+                    }
                     salt += 1;
                     let t = mk_tx(&mut rng, &mut spendable, salt, true);
                     for i in 0..t.outputs.len() {
@@ -360,6 +375,25 @@ fn run_history(rep: &mut Report, seed: u64, len: usize) -> (Vec<String>, Vec<Str
             }
             7 | 8 => {
                 // a fetch result arrives for a transaction (possibly one that is already indexed)
+                if pending.is_none() && rng.chance(1, 2) {
+                    // ... or for a transaction of the next block
+                    salt += 1;
+                    let t = mk_tx(&mut rng, &mut spendable, salt, true);
+                    let hdr = HeaderBuilder::default().number(number.pack()).timestamp((number + 7_000_000).pack()).build();
+                    env.storage.add_fetched_tx(
+                        &t.view.data(),
+                        &HeaderWithExtension { header: hdr.data(), extension: None },
+                    );
+                    let bh = abs.block(&hdr.hash());
+                    lines.push(format!("fetched {} {} | {}", number, bh, tx_text(&mut abs, &t)));
+                    impls.push("ok".into());
+                    rep.count_op("fetched-ahead");
+                    pending = Some(t);
+                    let d = dump(&env, &abs);
+                    lines.push("dump".into());
+                    impls.push(d);
+                    continue;
+                }
                 if all_txs.is_empty() {
                     continue;
                 }
@@ -440,6 +474,14 @@ fn run_history(rep: &mut Report, seed: u64, len: usize) -> (Vec<String>, Vec<Str
                             if !removed.contains(&i.0) && !spendable.contains(i) {
                                 spendable.push(i.clone());
                             }
+                        }
+                    }
+                }
+                if let Some(t) = pending.take() {
+                    // the announced transaction belongs to the abandoned continuation
+                    for i in &t.inputs {
+                        if !spendable.contains(i) {
+                            spendable.push(i.clone());
                         }
                     }
                 }
@@ -569,6 +611,11 @@ pub fn run(opts: &Options) -> Report {
     let mut owner = Vec::new();
     for (i, (seed, len)) in seeds.iter().enumerate() {
         let (l, im) = run_history(&mut rep, *seed, *len);
+        if std::env::var("VERIF_TRACE").is_ok() {
+            for (a, b) in l.iter().zip(im.iter()) {
+                eprintln!("{}   #{}", a, b);
+            }
+        }
         if i % 41 == 0 {
             rep.sample(&format!(
                 "history-seed {} len {}: {}",
